@@ -818,7 +818,8 @@ fn gen_hdr(t: &mut Tape, stream: u32, big: bool) -> HdrSpec {
                 h.path = Some(if t.chance(2, 3) { t.pick(PATHS).to_string() } else { format!("/p/{}", String::from_utf8(printable(t, 1 + 30)).unwrap().replace(' ', "_")) });
             }
             if t.chance(1, 10) {
-                h.protocol = Some("websocket".into());
+                // (values that differ only in case are different values: octets are compared, never tokens)
+                h.protocol = Some(t.pick(&["websocket", "WebSocket", "WEBSOCKET", "webtransport", "connect-udp"]).to_string());
             }
         }
         1 => {
